@@ -28,7 +28,7 @@ Record obj := mkObj { ty : nat; size : N; val : Z; oid : nat }.
 
 Inductive tag := TPayload (t : nat) | TBox.
 
-Definition lent := (nat * tag)%type.
+Notation lent := (nat * tag)%type.
 
 Record ledger := mkL { live : list lent; dead : list nat; next : nat; err : bool }.
 
